@@ -300,3 +300,78 @@ pub fn tee(l: usize, cap: usize, sched: &[(usize, usize, usize)], br: usize) {
     witness!("compared with the reference");
     std::mem::forget((r, input));
 }
+
+// ---- FftStream framing with a stand-in transform ---------------------------------
+/// Stand-in for the FFT engine: reverses each frame and negates it, so that every frame
+/// boundary is visible in the output.
+pub struct FakeFft {
+    pub n: usize,
+}
+impl rustfft::Length for FakeFft {
+    fn len(&self) -> usize {
+        self.n
+    }
+}
+impl rustfft::Direction for FakeFft {
+    fn fft_direction(&self) -> rustfft::FftDirection {
+        rustfft::FftDirection::Forward
+    }
+}
+impl rustfft::Fft<f32> for FakeFft {
+    fn process(&self, buffer: &mut [Complex]) {
+        // whole frames only, as rustfft requires
+        assert!(buffer.len() % self.n == 0, "engine called on a partial frame");
+        let frames = buffer.len() / self.n;
+        for f in 0..frames {
+            let base = f * self.n;
+            let mut i = 0;
+            while i < self.n / 2 {
+                let a = buffer[base + i];
+                buffer[base + i] = buffer[base + self.n - 1 - i];
+                buffer[base + self.n - 1 - i] = a;
+                i += 1;
+            }
+            for i in 0..self.n {
+                let v = buffer[base + i];
+                buffer[base + i] = Complex::new(-v.re, -v.im);
+            }
+        }
+    }
+    fn process_with_scratch(&self, buffer: &mut [Complex], _scratch: &mut [Complex]) {
+        self.process(buffer)
+    }
+    fn process_outofplace_with_scratch(&self, input: &mut [Complex], output: &mut [Complex], _scratch: &mut [Complex]) {
+        for i in 0..input.len() {
+            output[i] = input[i];
+        }
+        self.process(output)
+    }
+    fn get_inplace_scratch_len(&self) -> usize {
+        0
+    }
+    fn get_outofplace_scratch_len(&self) -> usize {
+        0
+    }
+}
+
+/// FftStream framing: consumes and produces whole frames of `size`, each frame transformed
+/// on its own, independent of chunking and output space.
+pub fn fft_stream(size: usize, l: usize, cap: usize, sched: &[(usize, usize)], br: usize) {
+    let input = sym_vec::<Complex>(l);
+    let mk = |src: ReadStream<Complex>| {
+        rustradio::fft_stream::verif_access::with_engine(src, size, std::sync::Arc::new(FakeFft { n: size }))
+    };
+    let (a, b) = ab_11(&mk, &input, &[], cap, sched, l.max(1), 4, br);
+    let frames = l / size;
+    let mut e = Vec::with_capacity(MAXV);
+    for f in 0..frames {
+        for i in 0..size {
+            let v = input[f * size + (size - 1 - i)];
+            e.push(Complex::new(-v.re, -v.im));
+        }
+    }
+    check_ref(&a, &e, "FftStream");
+    check_ref(&b, &e, "FftStream");
+    std::mem::forget(input);
+    done(a, b, e);
+}
